@@ -16,6 +16,7 @@ import Driver.OpsMCTS
 import Driver.OpsPTN
 import Driver.OpsSolvers
 import Driver.OpsApi
+import Driver.OpsGlue
 namespace Driver
 
 def handlers : List Handler := [
@@ -37,6 +38,7 @@ def handlers : List Handler := [
   handleSearch,
   handleSolvers,
   handleApi,
+  handleGlue,
 ]
 
 def step (st : St) (line : String) : St × String :=
